@@ -381,6 +381,8 @@ type vgenOpts struct {
 	// NoNullOptional: never render an optional member as null (what "null" means for a tracked
 	// optional field is not stated by the properties, so it is not generated where it would matter).
 	NoNullOptional bool
+	// NonNegByteKeys keeps map keys of thrift type byte in 0..127 (see prop_c04.go).
+	NonNegByteKeys bool
 }
 
 type vgen struct {
@@ -544,7 +546,11 @@ func (g *vgen) keyVal(t *TType, depth int) *TVal {
 		g.o.StrClass = old
 		return v
 	}
-	return g.value(t, depth)
+	v := g.value(t, depth)
+	if g.o.NonNegByteKeys && t.Kind == tBYTE && v.I < 0 {
+		v.I = -(v.I + 1)
+	}
+	return v
 }
 
 func (g *vgen) structVal(v *TVal, depth int) {
